@@ -142,7 +142,7 @@ def run_case(ns, mon, case):
                 nchk += 1
                 if not okd:
                     nin += 1
-                elif abs(gd - wd) > (1e-9 if mode == "affine" else 1e-6) * (scale + abs(wd) + float(np.max(np.abs(got)))):
+                elif not (abs(gd - wd) <= (1e-9 if mode == "affine" else 1e-6) * (scale + abs(wd) + float(np.max(np.abs(got))))):
                     nbad += 1
                     first = first or "directional"
         counters["fd_coords_checked"] = counters.get("fd_coords_checked", 0) + nchk
